@@ -21,7 +21,7 @@ BOUND = (
     '(+ one "invalid"), run ids {1,2,17}, appended via chronicle.append and schedule.complete in any order; '
     'queries: every (after, before) with bounds in {None} + (same grid +-1 us), every limit 0..9 and None, '
     'succeeded True/False, "now" injected after the newest entry (5 fixed + 3 seeded histories quick; '
-    '5 fixed + 155 seeded histories thorough; two-sided windows take one rotating limit each in quick, all 11 in thorough)'
+    '5 fixed + 95 seeded histories thorough; two-sided windows take one rotating limit each in quick, all 11 in thorough)'
 )
 
 REPO = os.environ.get('VERIF_REPO', '/repo')
@@ -490,7 +490,7 @@ def _scenario(args):
 def run(tier: str, seed: int) -> dict:
     rng = random.Random(seed)
     scenarios = [(f'fixed:{g}', g, _fixed_history(g), tier, 0) for g in GROUPS]
-    for i in range(3 if tier == 'quick' else 155):
+    for i in range(3 if tier == 'quick' else 95):
         g, h = _seeded_history(rng, i)
         scenarios.append((f'seed{seed}:{i}:{g}', g, h, tier, rng.randrange(10)))
     if tier == 'thorough':
